@@ -11,6 +11,9 @@ from harness.project import call
 KINDS = ["permutations", "combinations", "combinations_with_replacement", "product"]
 
 
+
+RULE_EXTRA = ('a second expansion of the same object; expand, add the last residue modification, expand again.')
+
 def comb_event(pp, tid, A, kind, size, via):
     kw = {"repeat" if kind == "product" else "size": None if size == -1 else size}
     a = anngen.build(pp, A)
